@@ -562,7 +562,8 @@ def gen_query(rng, SET, mode=None):
 
     mode None: see RULE of the check; "wide": two-bound query of span 100-500 Mb starting inside the first 128 kb
     (85% completely_within); "binend": two-bound query whose end is the last base of a bin of level 0-3; "reversed":
-    two-bound query placed relative to a stored feature with start > end."""
+    two-bound query placed relative to a stored feature with start > end; "declared": query (any form) whose end lies
+    beyond the end a ##sequence-region line of the file declares for the queried seqid (SET["declared"])."""
     feats = SET["features"]
     api = _weighted(rng, APIS)
     within = rng.random() < (0.85 if mode == "wide" else 0.5)
@@ -582,7 +583,8 @@ def gen_query(rng, SET, mode=None):
         seqid = rng.choice(pool_all)["seqid"]
     else:
         seqid = rng.choice(SET["seqids"] + ["chrNone"])
-    q["form"] = _weighted(rng, (REGION_FORMS if mode is None else TWO_BOUND_REGION_FORMS) if api == "region" else LIMIT_FORMS)
+    q["form"] = _weighted(rng, (REGION_FORMS if mode in (None, "declared") else TWO_BOUND_REGION_FORMS) if api == "region"
+                          else LIMIT_FORMS)
     q["seqid"] = None if q["form"].endswith("noseqid") else seqid
     pool = [f for f in pool_all if q["seqid"] is None or f["seqid"] == q["seqid"]]
     if mode == "wide":
@@ -595,6 +597,9 @@ def gen_query(rng, SET, mode=None):
     elif mode == "reversed":
         a, b = _reversed_interval(rng, SET, pool, within)
         q["tag"] = "reversed"
+    elif mode == "declared":
+        a, b = _declared_interval(rng, SET, pool, within, q["seqid"])
+        q["tag"] = "declared"
     else:
         a, b = _interval(rng, SET, pool, within)
     q["start"] = None if q["form"].startswith("end-only") else a
